@@ -177,6 +177,11 @@ def run_one(job):
 def warm(_):
     import c19_impl as I
     I.setup()
+    if os.environ.get("C19_DEBUG"):
+        import faulthandler
+        global _DBG
+        _DBG = open(f"/verif/work/c19_worker_{os.getpid()}.txt", "w")
+        faulthandler.dump_traceback_later(int(os.environ["C19_DEBUG"]), repeat=True, file=_DBG)
     d = {"classes": [{"attrs": [[0, "attr", 2, True, True, True, "list"], [1, "plain", 0, True, True, True, "int"]],
                       "key": None, "frozen": False, "new": False}], "sub": None}
     run_one((d, [["helper", 0]], {"kind": "preempt", "first": 0, "switch": []}))
@@ -331,14 +336,23 @@ def replay_case(r, pool):
 
 
 def main(tier, replay=None):
-    pool = ProcessPoolExecutor(max_workers=JOBS)
+    import multiprocessing
+    # spawn: the workers start from a clean interpreter (forking a multi-threaded parent can deadlock)
+    pool = ProcessPoolExecutor(max_workers=JOBS, mp_context=multiprocessing.get_context("spawn"))
     try:
         list(pool.map(warm, range(JOBS)))
         return main2(tier, replay, pool)
     finally:
-        for pr in list(getattr(pool, "_processes", {}).values()):
-            pr.kill()
-        pool.shutdown(wait=False, cancel_futures=True)
+        # orderly shutdown (idle workers exit at once); anything still alive after 15 s is killed
+        # so that no worker keeps the output pipe of bin/check open
+        import threading
+        procs = list(getattr(pool, "_processes", {}).values())
+        th = threading.Thread(target=lambda: pool.shutdown(wait=True, cancel_futures=True), daemon=True)
+        th.start()
+        th.join(15)
+        for pr in procs:
+            if pr.is_alive():
+                pr.kill()
 
 
 def main2(tier, replay, pool):
